@@ -348,7 +348,7 @@ pub fn suite_c06(ctx: &mut Ctx) {
         let k = ctx.q(300_000, 20_000_000);
         crate::screen::screen_fixed(ctx, ty, &["sqrt"], k);
     }
-    let l2 = ctx.q(24, 29) as u32;
+    let l2 = ctx.q(24, 28) as u32;
     crate::screen::screen_unary32(ctx, &P32T, &["sqrt"], l2);
 }
 
@@ -392,7 +392,7 @@ pub fn suite_c09(ctx: &mut Ctx) {
         }
     }
     // screening sweep over a seeded coset of all P32E2 patterns (selection only; see screen.rs)
-    let l2 = ctx.q(24, 29) as u32;
+    let l2 = ctx.q(24, 28) as u32;
     crate::screen::screen_unary32(ctx, &P32T, &["round", "floor", "ceil", "trunc", "fract"], l2);
 }
 
@@ -581,7 +581,7 @@ pub fn suite_c02(ctx: &mut Ctx) {
         }
     }
     // screening sweep over a seeded coset of all f32 patterns (selection only; see screen.rs)
-    let l2 = ctx.q(24, 29) as u32;
+    let l2 = ctx.q(23, 27) as u32;
     crate::screen::screen_from32(ctx, &[&P8T, &P16T, &P32T], &["from_f32"], l2);
 }
 
@@ -604,7 +604,7 @@ pub fn suite_c03(ctx: &mut Ctx) {
         }
     }
     // screening sweep over a seeded coset of all P32E2 patterns (selection only; see screen.rs)
-    let l2 = ctx.q(24, 29) as u32;
+    let l2 = ctx.q(24, 28) as u32;
     crate::screen::screen_unary32(ctx, &P32T, &["to_f32", "to_f64"], l2);
 }
 
@@ -660,8 +660,9 @@ pub fn suite_c07(ctx: &mut Ctx) {
         }
     }
     // screening sweeps (selection only; see screen.rs)
-    let l2 = ctx.q(24, 29) as u32;
+    let l2 = ctx.q(24, 28) as u32;
     crate::screen::screen_unary32(ctx, &P32T, &["to_i32", "to_u32", "to_i64", "to_u64"], l2);
+    let l2 = ctx.q(22, 26) as u32;
     crate::screen::screen_from32(ctx, &[&P8T, &P16T, &P32T], &["from_i32", "from_u32"], l2);
     let k = ctx.q(300_000, 20_000_000);
     crate::screen::screen_from64(ctx, &[&P8T, &P16T, &P32T], k);
@@ -702,7 +703,7 @@ pub fn suite_c08(ctx: &mut Ctx) {
         }
     }
     // screening sweep over a seeded coset of all P32E2 patterns (selection only; see screen.rs)
-    let l2 = ctx.q(24, 29) as u32;
+    let l2 = ctx.q(24, 28) as u32;
     crate::screen::screen_unary32(ctx, &P32T, &["to_p16", "to_p8"], l2);
 }
 
